@@ -68,7 +68,31 @@ def gen(tier, rng):
                 frs.append("5:1")                            # a small NAL afterwards
                 pol = "B" * 8 if shape != 3 else "".join(rng.choice("BBI") for _ in range(8))
                 cases.append("!accumbig %s %s" % (",".join(frs), pol))
+    cases += long_histories(rng, tier)
     return cases
+
+
+def long_histories(rng, tier):
+    """tail mode (every view reported by its length and last 64 bytes): (1) ONE NAL growing through ~80 fragments of varied
+    sizes to 40 MB (quick) / 150 MB (thorough), always buffered - every size threshold below that is crossed by a non-final
+    delivery with more to come; (2) 130 (thorough 300) NALs of 1 MiB each ignored at its first fragment and ended by a later
+    delivery, then a small NAL in two fragments that must be shown twice - more than 10^8 bytes pass the accumulator"""
+    out = []
+    total = 40_000_000 if tier == "quick" else 150_000_000
+    frs, left = ["1:0"], total - 1
+    while left > 0:
+        n = min(left, rng.choice([1, 1000, 65536, 200_000, 1_000_000, 1_000_000, 3_000_000, 17_400_000 if left > 30_000_000 else 500_000]))
+        frs.append(("%d:0" % n) if rng.random() < 0.7 else "%d/%d:0" % (n // 2, n - n // 2) if n > 1 else "1:0")
+        left -= n
+    frs += ["1000:0", ":1", "5:0", "3:1"]
+    out.append("!accumbig %s T%s" % (",".join(frs), "B" * 400))
+    nn = 130 if tier == "quick" else 300
+    frs = []
+    for _ in range(nn):
+        frs += ["%d:0" % (1 << 20), "7:0", ":1"]
+    frs += ["5:0", "5:1"]
+    out.append("!accumbig %s T%s" % (",".join(frs), "I" * nn + "BB"))
+    return out
 
 
 def nontrivial(r):
@@ -85,21 +109,27 @@ def big_check(r):
     import zlib
     parts = r["case"].lstrip("!").split()
     pol = list(parts[2]) if len(parts) > 2 else []
-    want, cur, ignored, k, pos = [], b"", False, 0, 0
+    tail_mode = bool(pol) and pol[0] == "T"
+    if tail_mode:
+        pol = pol[1:]
+    want, cur, ignored, k, pos = [], bytearray(), False, 0, 0
     for f in parts[1].split(","):
         sizes, e = f.split(":")
         n = sum(int(x) for x in sizes.split("/") if x)
         cur += synth(pos, pos + n)
         pos += n
-        if not ignored and cur:
+        if not ignored and cur and tail_mode:
+            want.append("T%d:%08x;%d;%s" % (len(cur), zlib.crc32(bytes(cur[-64:])), e == "1", "Eof" if e == "1" else "WouldBlock"))
+        if not ignored and cur and not tail_mode:
             hdr = "%d.%d" % ((cur[0] >> 5) & 3, cur[0] & 31) if not cur[0] & 0x80 else "err"
-            want.append("L%d:%08x;%d;%s;%s;rd=same" % (len(cur), zlib.crc32(cur), e == "1", "Eof" if e == "1" else "WouldBlock", hdr))
+            want.append("L%d:%08x;%d;%s;%s;rd=same" % (len(cur), zlib.crc32(bytes(cur)), e == "1", "Eof" if e == "1" else "WouldBlock", hdr))
+        if not ignored and cur:
             d = pol[k] if k < len(pol) else "B"
             k += 1
             if d == "I":
                 ignored = True
         if e == "1":
-            cur, ignored = b"", False
+            cur, ignored = bytearray(), False
     got = r["dev"].split()
     want = [w.replace(";True;", ";1;").replace(";False;", ";0;") for w in want]
     if got != want:
